@@ -1,6 +1,8 @@
 package main
 
 import (
+	bpmn "github.com/olive-io/bpmn/v2"
+	"time"
 	"fmt"
 	"math/rand"
 
@@ -213,6 +215,81 @@ func runC14(env *Env) {
 			j = len(items)
 		}
 		env.WriteCases(rep, fmt.Sprintf("_%d", k), "Corr.C14corr", "nat * nat * list nat * list nat", items[i:j], "c14_mismatches")
+	}
+	// engine level: a parallel-multiple catch event in a loop. An event delivered while no token listens (between
+	// the firing and the token's return) must not count towards the next firing.
+	for _, gap := range []string{"sB", "sA", ""} {
+		if rep.Saturated() {
+			break
+		}
+		cs := fmt.Sprintf("parallel-multiple catch event {sA, sB} in a loop; event delivered while nobody listens: %q", gap)
+		env.Current(cs)
+		p := &Prog{}
+		p.Node("start", "start")
+		p.Node("xor", "M")
+		c := p.Node("catch", "C")
+		c.Attrs = `parallelMultiple="true"`
+		c.Inner = `<bpmn:signalEventDefinition id="dA" signalRef="sA"/><bpmn:signalEventDefinition id="dB" signalRef="sB"/>`
+		b := p.Node("task", "B0")
+		b.Results = []string{"again"}
+		x := p.Node("xor", "X")
+		p.Node("end", "end")
+		p.Flow("start", "M", "")
+		p.Flow("M", "C", "")
+		p.Flow("C", "B0", "")
+		p.Flow("B0", "X", "")
+		p.Flow("X", "M", "again")
+		x.Default = p.Flow("X", "end", "").ID
+		defs, err := ParseDefs(p.XML(`<bpmn:signal id="sA" name="sA"/><bpmn:signal id="sB" name="sB"/>`))
+		must(err)
+		in, err := StartInst(defs, InstOpt{Vars: map[string]any{"again": true}})
+		must(err)
+		rep.Evaluations++
+		rep.Nontrivial++
+		rep.Count("engine_parallel_multiple_loop")
+		fail := func(msg string) { rep.Violate("C14-engine", cs, msg+"; log: "+logString(in.Log())) }
+		reqs := func() int { return countEv(in.Log(), "task", "B0") }
+		ok := in.WaitUntil(tmoStep, func(l []Ev) bool { return countEv(l, "listening", "C") >= 1 })
+		in.Signal("sA")
+		in.Signal("sB")
+		if !ok || !in.WaitUntil(tmoStep, func(l []Ev) bool { return countEv(l, "task", "B0") >= 1 }) {
+			fail("round 1: both definitions matched, the catch event did not fire")
+			in.Close()
+			continue
+		}
+		if gap != "" {
+			in.Signal(gap) // nobody listens: the token waits in B0
+			time.Sleep(5 * time.Millisecond)
+		}
+		in.Answer("B0", tmoStep, bpmn.DoWithResults(map[string]any{"again": true}))
+		if !in.WaitUntil(tmoStep, func(l []Ev) bool { return countEv(l, "listening", "C") >= 2 }) {
+			fail("round 2: the catch event did not listen again")
+			in.Close()
+			continue
+		}
+		other := "sA"
+		if gap == "sA" {
+			other = "sB"
+		}
+		in.Signal(other) // one definition only: must not fire yet
+		time.Sleep(25 * time.Millisecond)
+		if reqs() != 1 {
+			fail(fmt.Sprintf("round 2: fired after %s alone (an event delivered while nobody listened was counted)", other))
+		}
+		for _, s := range []string{"sA", "sB"} {
+			if s != other {
+				in.Signal(s)
+			}
+		}
+		if !in.WaitUntil(tmoStep, func(l []Ev) bool { return countEv(l, "task", "B0") >= 2 }) {
+			fail("round 2: both definitions matched while listening, the catch event did not fire")
+		} else {
+			in.Answer("B0", tmoStep, bpmn.DoWithResults(map[string]any{"again": false}))
+			if !in.WaitCease(tmoStep) {
+				fail("the instance did not complete")
+			}
+		}
+		in.Close()
 	}
 	env.WriteReport(rep)
 }
